@@ -1,6 +1,6 @@
 SPECIFICATION Spec
 CONSTANTS
-  MaxPts = 7
+  MaxPts = 6
   MaxApproxPts = 9
 INVARIANT T_SW
 INVARIANT T_Approx
